@@ -111,7 +111,7 @@ def _cases(draw):
         form.pop("ext_header", None)
     elif g.p("_", 0.15):
         # the workbook as a spreadsheet file with spacer columns and typed number cells: lists keep all their columns, in order
-        form["carrier"] = {"fmt": g.pick(["xlsx", "xlsx", "xls"]), "seed": g.integer(0, 9999)}
+        form["carrier"] = {"fmt": g.pick(["xlsx", "xlsx", "xls", "csv"]), "seed": g.integer(0, 9999)}
     return case
 
 
